@@ -8,10 +8,17 @@
 //!   wal.valid_len   file length after `TxWal::open` vs model `valid_len`
 //!   wal.replay      direct `TxWal::{open,append,replay}` with cuts vs model `replay`
 //!   crc / frame     crc32fast + on-disk frame layout vs the model's
+//!   coord.full.*    the same streams on a WAL whose size limit makes appends FAIL (auto_rotate off):
+//!                   every byte value of the limit over hand-written scripts, and a share of the
+//!                   seeded scenarios; the model is told the payload sizes (`need` protocol)
+//!   coord.rot.*     the size limit with auto_rotate on (observations only)
 //! Oracles (evaluated on the real coordinator only, classes are machine computed):
 //!   logged outcome never reversed, acknowledged records survive reopen+append (torn tail),
 //!   prepared transactions come back with their accepted votes and can be completed,
-//!   forgotten transactions hold no locks, completed transactions' locks are released.
+//!   forgotten transactions hold no locks, completed transactions' locks are released,
+//!   memory never ahead of the log (a pending transaction's Prepared / Committing phase and its
+//!   votes are in the file), an ok answer of commit/abort comes with its TxComplete record and any
+//!   other answer with none, recover() sends a restored all-YES prepared transaction to commit.
 use nverif::*;
 use serde_json::{json, Value};
 use std::collections::{BTreeMap, HashSet};
@@ -56,8 +63,19 @@ fn show_list(v: &[usize]) -> String {
     }
 }
 
-fn wal_cfg() -> WalConfig {
-    WalConfig { pre_check_space: false, ..WalConfig::default() }
+/// `cap` = (max_size_bytes, auto_rotate)
+fn wal_cfg(cap: Option<(u64, bool)>) -> WalConfig {
+    match cap {
+        None => WalConfig { pre_check_space: false, ..WalConfig::default() },
+        Some((max, rot)) => WalConfig { pre_check_space: false, max_size_bytes: max, auto_rotate: rot, ..WalConfig::default() },
+    }
+}
+
+fn new_line(timeout: u64, maxc: usize, cap: Option<(u64, bool)>) -> String {
+    match cap {
+        None => format!("new {timeout} {maxc}"),
+        Some((max, rot)) => format!("new {timeout} {maxc} {max} {}", rot as u8),
+    }
 }
 
 // ------------------------------------------------------------------ script
@@ -91,9 +109,15 @@ enum Op {
     Cleanup,
     Flush,
     RecoverLive,
+    /// `recover()`
+    RecoverMem,
+    /// `get_pending_decisions()`
+    Decisions,
+    /// `force_resolve(tx, commit)`
+    Force(usize, bool),
     Sleep(u64),
-    /// crash, cut, restart with the given prepare timeout / max_concurrent
-    Crash { cut: Cut, timeout: u64, maxc: usize },
+    /// crash, cut, restart with the given prepare timeout / max_concurrent / WAL size limit
+    Crash { cut: Cut, timeout: u64, maxc: usize, cap: Option<(u64, bool)> },
 }
 
 fn op_json(o: &Op) -> Value {
@@ -216,8 +240,10 @@ fn frames(bytes: &[u8], from: usize) -> Vec<(usize, usize, Vec<u8>)> {
     out
 }
 
-/// sort runs of consecutive LockRelease / AbortIntent tokens (hash-map iteration order)
-fn canon_runs(tokens: &[String]) -> String {
+/// sort runs of consecutive LockRelease / AbortIntent tokens (hash-map iteration order).
+/// `count_l`: the WAL is size-limited, so WHICH LockRelease records of a commit still fitted
+/// depends on that order too; a run is then compared as `L:<tx>:#<how many>`.
+fn canon_runs(tokens: &[String], count_l: bool) -> String {
     let mut out: Vec<String> = vec![];
     let mut i = 0;
     while i < tokens.len() {
@@ -229,7 +255,12 @@ fn canon_runs(tokens: &[String]) -> String {
             }
             let mut run = tokens[i..j].to_vec();
             run.sort();
-            out.extend(run);
+            if count_l && k == b'L' {
+                let tx = run[0].split(':').nth(1).unwrap_or("?").to_string();
+                out.push(format!("L:{tx}:#{}", run.len()));
+            } else {
+                out.extend(run);
+            }
             i = j;
         } else {
             out.push(tokens[i].clone());
@@ -244,6 +275,10 @@ fn canon_runs(tokens: &[String]) -> String {
 }
 
 fn canon_model_answer(ans: &str, strip_phase_digit: bool) -> String {
+    canon_model_answer_c(ans, strip_phase_digit, false)
+}
+
+fn canon_model_answer_c(ans: &str, strip_phase_digit: bool, count_l: bool) -> String {
     // "<res> | <tokens> | pending=[..] locks=[..] aborts=[..]"
     let parts: Vec<&str> = ans.splitn(3, " | ").collect();
     if parts.len() != 3 {
@@ -255,7 +290,7 @@ fn canon_model_answer(ans: &str, strip_phase_digit: bool) -> String {
     }
     let toks: Vec<String> = if parts[1] == "-" { vec![] } else { parts[1].split(' ').map(|s| s.to_string()).collect() };
     let digest = parts[2].split(" aborts=").next().unwrap_or("").to_string();
-    format!("{res} | {} | {digest}", canon_runs(&toks))
+    format!("{res} | {} | {digest}", canon_runs(&toks, count_l))
 }
 
 // ------------------------------------------------------------------ the world
@@ -266,6 +301,8 @@ struct World {
     coord: Option<DistributedTxCoordinator>,
     timeout: u64,
     maxc: usize,
+    /// size limit of the WAL of the current process: (max_size_bytes, auto_rotate)
+    cap: Option<(u64, bool)>,
     book: Book,
     defined: HashSet<Vec<u8>>,
     trace: Vec<String>,
@@ -286,8 +323,8 @@ fn tmp_dir() -> tempfile::TempDir {
     }
 }
 
-fn new_coord(path: &Path, timeout: u64, maxc: usize) -> (DistributedTxCoordinator, Result<Vec<TxWalEntry>, String>, u64) {
-    let wal = TxWal::open_with_config(path, wal_cfg()).expect("open wal");
+fn new_coord(path: &Path, timeout: u64, maxc: usize, cap: Option<(u64, bool)>) -> (DistributedTxCoordinator, Result<Vec<TxWalEntry>, String>, u64) {
+    let wal = TxWal::open_with_config(path, wal_cfg(cap)).expect("open wal");
     let len_after_open = std::fs::metadata(path).map(|m| m.len()).unwrap_or(0);
     let replayed = wal.replay().map_err(|e| e.to_string());
     let cfg = DistributedTxConfig { prepare_timeout_ms: timeout, max_concurrent: maxc, ..DistributedTxConfig::default() };
@@ -297,19 +334,46 @@ fn new_coord(path: &Path, timeout: u64, maxc: usize) -> (DistributedTxCoordinato
 
 impl World {
     fn new(timeout: u64, maxc: usize, m: &mut Model) -> World {
+        World::new_capped(timeout, maxc, None, m)
+    }
+
+    fn new_capped(timeout: u64, maxc: usize, cap: Option<(u64, bool)>, m: &mut Model) -> World {
         let dir = tmp_dir();
         let path = dir.path().join("tx.wal");
-        let (c, _, _) = new_coord(&path, timeout, maxc);
-        m.ask(&format!("new {timeout} {maxc}"));
+        let (c, _, _) = new_coord(&path, timeout, maxc, cap);
+        m.ask(&new_line(timeout, maxc, cap));
         World {
             _dir: dir,
             path,
             coord: Some(c),
             timeout,
             maxc,
+            cap,
             book: Book::default(),
             defined: HashSet::new(),
-            trace: vec![format!("new {timeout} {maxc}")],
+            trace: vec![new_line(timeout, maxc, cap)],
+            rt: tokio::runtime::Builder::new_current_thread().enable_all().build().unwrap(),
+            transport: MemoryTransport::new("coord".to_string()),
+            clock_unsure: false,
+            crashes: 0,
+            cur: String::new(),
+        }
+    }
+
+    /// a dead process: the bookkeeping of `src`, no coordinator; `restart_at` brings it to life
+    fn dead_copy(src: &World) -> World {
+        let dir = tmp_dir();
+        let path = dir.path().join("tx.wal");
+        World {
+            _dir: dir,
+            path,
+            coord: None,
+            timeout: src.timeout,
+            maxc: src.maxc,
+            cap: src.cap,
+            book: src.book.clone(),
+            defined: src.defined.clone(),
+            trace: src.trace.clone(),
             rt: tokio::runtime::Builder::new_current_thread().enable_all().build().unwrap(),
             transport: MemoryTransport::new("coord".to_string()),
             clock_unsure: false,
@@ -413,15 +477,208 @@ fn violation(cx: &mut Ctx, w: &World, class: &str, what: &str, extra: Value) {
     cx.rep.violation(class, what, json!({"trace": w.trace, "during": w.cur, "detail": extra}));
 }
 
+fn num_phase(n: u8) -> TxPhase {
+    match n {
+        0 => TxPhase::Preparing,
+        1 => TxPhase::Prepared,
+        2 => TxPhase::Committing,
+        3 => TxPhase::Committed,
+        4 => TxPhase::Aborting,
+        _ => TxPhase::Aborted,
+    }
+}
+
+fn parse_list(s: &str) -> Vec<usize> {
+    if s == "-" || s.is_empty() {
+        vec![]
+    } else {
+        s.split(',').filter_map(|x| x.parse().ok()).collect()
+    }
+}
+
+/// canonical token -> the entry the real coordinator would write for it (ids mapped back)
+fn entry_of_token(b: &Book, tok: &str) -> Option<TxWalEntry> {
+    let f: Vec<&str> = tok.split(':').collect();
+    let tx = |c: &str| -> Option<u64> {
+        let c: u64 = c.parse().ok()?;
+        Some(if c >= 1 && (c as usize) <= b.txs.len() { b.txs[c as usize - 1].real } else { FAKE_TX_REAL })
+    };
+    let hd = |c: &str| -> Option<u64> {
+        let c: u64 = c.parse().ok()?;
+        Some(if c >= FAKE_H_C { FAKE_H_REAL + (c - FAKE_H_C) } else if c >= 1 && (c as usize) <= b.handles.len() { b.handles[c as usize - 1].real } else { c })
+    };
+    match f.as_slice() {
+        ["B", t, ps] => Some(TxWalEntry::TxBegin { tx_id: tx(t)?, participants: parse_list(ps) }),
+        ["V", t, sh, k] => Some(TxWalEntry::PrepareVote {
+            tx_id: tx(t)?,
+            shard: sh.parse().ok()?,
+            vote: if *k == "n" { PrepareVoteKind::No } else { PrepareVoteKind::Yes { lock_handle: hd(k.strip_prefix('y')?)? } },
+        }),
+        ["P", t, fr, to] => Some(TxWalEntry::PhaseChange { tx_id: tx(t)?, from: num_phase(fr.parse().ok()?), to: num_phase(to.parse().ok()?) }),
+        ["C", t, o] => Some(TxWalEntry::TxComplete { tx_id: tx(t)?, outcome: if *o == "c" { TxOutcome::Committed } else { TxOutcome::Aborted } }),
+        ["L", t, h] => Some(TxWalEntry::LockRelease { tx_id: tx(t)?, lock_handle: hd(h)? }),
+        ["R", t] => Some(TxWalEntry::AllLocksReleased { tx_id: tx(t)? }),
+        ["I", t, r, sh] => Some(TxWalEntry::AbortIntent { tx_id: tx(t)?, reason: r.replace('_', " "), shards: parse_list(sh) }),
+        _ => None,
+    }
+}
+
+/// ask the model; when it needs the size of records it has not seen (size-limited WAL), announce
+/// the payloads bitcode produces for them and ask again
+fn ask_model(w: &mut World, cx: &mut Ctx, line: &str) -> String {
+    for _ in 0..6 {
+        let ans = cx.m.ask(line);
+        let Some(rest) = ans.strip_prefix("need ") else { return ans };
+        cx.rep.hit("model.need_sizes");
+        for tok in rest.split(' ') {
+            if let Some(e) = entry_of_token(&w.book, tok) {
+                let p = bitcode::serialize(&e).unwrap();
+                w.defined.insert(p.clone());
+                cx.m.ask(&format!("def {} {}", hex(&p), tok));
+            }
+        }
+    }
+    "need-loop".to_string()
+}
+
+/// what the records in the file say about one transaction (the harness' own reading of the
+/// log, independent of the model): None = never begun / begun record gone
+struct LogView {
+    completed: bool,
+    phase: u8,
+    votes: BTreeMap<usize, String>,
+    parts: Vec<usize>,
+}
+
+fn log_view(recs: &[Rec], cid: u64) -> Option<LogView> {
+    let mut v: Option<LogView> = None;
+    let me = cid.to_string();
+    for r in recs {
+        let f: Vec<&str> = r.token.split(':').collect();
+        if f.len() < 2 || f[1] != me {
+            continue;
+        }
+        match f[0] {
+            "B" => v = Some(LogView { completed: false, phase: 0, votes: BTreeMap::new(), parts: parse_list(f.get(2).unwrap_or(&"-")) }),
+            "V" => {
+                if let Some(x) = v.as_mut() {
+                    if !x.completed && x.phase == 0 {
+                        if let Ok(sh) = f[2].parse::<usize>() {
+                            x.votes.entry(sh).or_insert_with(|| f[3].to_string());
+                        }
+                    }
+                }
+            }
+            "P" => {
+                if let Some(x) = v.as_mut() {
+                    if !x.completed {
+                        x.phase = f[3].parse().unwrap_or(9);
+                    }
+                }
+            }
+            "C" => {
+                if let Some(x) = v.as_mut() {
+                    x.completed = true;
+                }
+            }
+            _ => {}
+        }
+    }
+    v
+}
+
+/// oracle: memory is never ahead of the log (needs a file that keeps its records: no rotation)
+fn check_memory_vs_log(w: &World, cx: &mut Ctx, only: Option<usize>) {
+    if matches!(w.cap, Some((_, true))) {
+        return;
+    }
+    let n = w.book.txs.len();
+    let range: Vec<usize> = match only {
+        Some(t) if t < n => vec![t],
+        Some(_) => vec![],
+        None => (0..n).collect(),
+    };
+    for t in range {
+        let ti = &w.book.txs[t];
+        let Some(tx) = w.c().get(ti.real) else { continue };
+        let cid = t as u64 + 1;
+        let site = "tensor_chain.distributed_tx.memory";
+        let lv = match log_view(&w.book.recs, cid) {
+            Some(lv) if !lv.completed => lv,
+            other => {
+                let kind = if other.is_some() { "pending_tx_completed_in_log" } else { "pending_tx_not_in_log" };
+                violation(cx, w, &format!("{site}/{kind}"),
+                    "a pending transaction is not in progress in the log", json!({"tx": cid, "phase": phase_num(tx.phase)}));
+                continue;
+            }
+        };
+        cx.rep.hit("oracle.memory_vs_log");
+        let mp = phase_num(tx.phase);
+        let ahead = match mp {
+            0 => lv.phase != 0,
+            1 => lv.phase != 1,
+            2 => lv.phase != 1 && lv.phase != 2,
+            3 | 5 => true,
+            _ => false,
+        };
+        if ahead || lv.parts != tx.participants {
+            violation(cx, w, &format!("{site}/phase_ahead_of_log"),
+                "the in-memory phase of a pending transaction is not justified by the log (log before state change)",
+                json!({"tx": cid, "memory_phase": mp, "log_phase": lv.phase}));
+        }
+        if mp == 0 || lv.phase == 1 || lv.phase == 2 {
+            let mut mv: BTreeMap<usize, String> = BTreeMap::new();
+            for (s, v) in &tx.votes {
+                mv.insert(*s, match v {
+                    PrepareVote::Yes { lock_handle, .. } => format!("y{}", w.book.h_c(*lock_handle)),
+                    _ => "n".to_string(),
+                });
+            }
+            if mv != lv.votes {
+                let class = if ti.rejected_logged && w.crashes > 0 {
+                    "tensor_chain.tx_wal.scan_entries/rejected_vote_recovered".to_string()
+                } else {
+                    format!("{site}/votes_differ_from_log")
+                };
+                violation(cx, w, &class,
+                    "the votes a pending transaction holds in memory are not the votes the log holds for it",
+                    json!({"tx": cid, "memory": mv, "log": lv.votes}));
+            }
+        }
+    }
+}
+
+/// wait until every pending transaction is clearly inside or clearly outside its timeout
+fn pin_clock(w: &World) -> u64 {
+    let mut t0 = now_ms();
+    for _ in 0..200 {
+        let unsure = w.pending_clocks().iter().any(|(s, to)| {
+            let el = t0.saturating_sub(*s);
+            el + GUARD_MS > *to && el <= *to + GUARD_MS
+        });
+        if !unsure {
+            break;
+        }
+        std::thread::sleep(Duration::from_millis(GUARD_MS + 5));
+        t0 = now_ms();
+    }
+    t0
+}
+
 /// run one op on the real coordinator and on the model; compare; evaluate oracles
 fn exec(w: &mut World, op: &Op, cx: &mut Ctx) {
     if w.clock_unsure {
         return;
     }
     let before_len = w.book.file_len;
+    let rot = matches!(w.cap, Some((_, true)));
+    let pre_bytes = if rot { Some(w.file()) } else { None };
     w.cur = format!("{op:?}");
     let stream = format!("{}coord.op", cx.stream_prefix);
     let mut strip = false;
+    // (name, canonical tx, answered ok) of a commit / abort, for the answer-vs-log oracle
+    let mut completion: Option<(&'static str, u64, bool)> = None;
+    let mut check_tx: Option<Option<usize>> = None;
     let (line, impl_res): (String, String) = match op {
         Op::Begin { parts, xflag } => {
             cx.rep.hit("op.begin");
@@ -435,11 +692,13 @@ fn exec(w: &mut World, op: &Op, cx: &mut Ctx) {
                         rejected_logged: false,
                         yes_count: 0,
                     });
+                    check_tx = Some(Some(w.book.txs.len() - 1));
                     (format!("begin {} {} {}", w.book.txs.len(), show_list(parts), tx.started_at), "ok".into())
                 }
-                Err(_) => {
-                    cx.rep.hit("res.too_many");
-                    (format!("begin {} {} {}", w.book.txs.len() + 1, show_list(parts), now_ms()), "too_many".into())
+                Err(e) => {
+                    let res = if e.to_string().contains("WAL write failed") { "wal_err" } else { "too_many" };
+                    cx.rep.hit(&format!("res.{res}"));
+                    (format!("begin {} {} {}", w.book.txs.len() + 1, show_list(parts), now_ms()), res.into())
                 }
             }
         }
@@ -455,6 +714,8 @@ fn exec(w: &mut World, op: &Op, cx: &mut Ctx) {
                     DeltaVector::zero(0)
                 }
             };
+            // on a size-limited WAL all handles of a transaction must have records of one size
+            let v = if w.cap.is_some() && matches!(v, V::YesFake(_)) { &V::YesLocked } else { v };
             let (vote, vstr) = match v {
                 V::YesLocked => {
                     // a real lock on a fresh key, as `handle_prepare` would take it
@@ -485,6 +746,11 @@ fn exec(w: &mut World, op: &Op, cx: &mut Ctx) {
             };
             let is_yes = vstr.starts_with('y');
             let r = w.c().record_vote(real, *shard, vote);
+            // the vote record is the first thing record_vote writes: no growth = the write failed
+            let vote_logged = rot || w.file().len() > before_len;
+            if !vote_logged {
+                cx.rep.hit("res.vote.wal_failed");
+            }
             let res = match &r {
                 Ok(Some(p)) => format!("phase{}", phase_num(*p)),
                 Ok(None) => "voted".to_string(),
@@ -495,7 +761,7 @@ fn exec(w: &mut World, op: &Op, cx: &mut Ctx) {
             cx.rep.hit(&format!("res.vote.{}", res.trim_end_matches(char::is_numeric)));
             let mut xbit = 0;
             if let Some(ti) = w.book.txs.get_mut(*t) {
-                if r.is_ok() {
+                if r.is_ok() && vote_logged {
                     ti.accepted.insert(*shard, vstr.clone());
                     if is_yes {
                         ti.yes_count += 1;
@@ -503,13 +769,14 @@ fn exec(w: &mut World, op: &Op, cx: &mut Ctx) {
                     if ti.xflag && ti.yes_count >= 2 {
                         xbit = 1;
                     }
-                } else {
+                } else if vote_logged {
                     ti.rejected_logged = true;
                 }
             }
+            check_tx = Some(Some(*t));
             (format!("vote {can} {shard} {vstr} {xbit}"), res)
         }
-        Op::Commit(t) | Op::Abort(t) | Op::CCommit(t) | Op::CAbort(t) => {
+        Op::Commit(t) | Op::Abort(t) | Op::CCommit(t) | Op::CAbort(t) | Op::Force(t, _) => {
             strip = true;
             let real = w.book.tx_real(*t);
             let can = w.book.tx_can(*t);
@@ -517,6 +784,7 @@ fn exec(w: &mut World, op: &Op, cx: &mut Ctx) {
                 Op::Commit(_) => ("commit", w.c().commit(real)),
                 Op::Abort(_) => ("abort", w.c().abort(real, "requested")),
                 Op::CCommit(_) => ("ccommit", w.c().complete_commit(real)),
+                Op::Force(_, b) => ("force", w.c().force_resolve(real, *b)),
                 _ => ("cabort", w.c().complete_abort(real)),
             };
             cx.rep.hit(&format!("op.{name}"));
@@ -524,8 +792,12 @@ fn exec(w: &mut World, op: &Op, cx: &mut Ctx) {
                 Ok(()) => "ok".to_string(),
                 Err(e) => {
                     let s = e.to_string();
-                    if s.contains("not found") {
+                    if s.contains("WAL write failed") {
+                        "wal_err".to_string()
+                    } else if s.contains("not found") {
                         "not_found".to_string()
+                    } else if s.contains("cannot be committed") {
+                        "cannot_commit".to_string()
                     } else if s.contains("phase") {
                         "wrong_phase".to_string()
                     } else {
@@ -534,10 +806,17 @@ fn exec(w: &mut World, op: &Op, cx: &mut Ctx) {
                 }
             };
             cx.rep.hit(&format!("res.{name}.{res}"));
+            if name == "commit" || name == "abort" {
+                completion = Some((if name == "commit" { "commit" } else { "abort" }, can, r.is_ok()));
+            }
+            let commits = match op {
+                Op::Force(_, b) => *b,
+                _ => name.ends_with("commit"),
+            };
             // oracle: a logged outcome is final
             if let Some(o) = w.book.durable.get(&can).copied() {
                 if r.is_ok() {
-                    let new = if name.ends_with("commit") { 'c' } else { 'a' };
+                    let new = if commits { 'c' } else { 'a' };
                     let kind = if new != o { "logged_outcome_reversed" } else { "completed_twice" };
                     violation(cx, w, &format!("tensor_chain.distributed_tx.{name}/{kind}"),
                         "a transaction whose TxComplete record is in the log was completed again",
@@ -564,23 +843,16 @@ fn exec(w: &mut World, op: &Op, cx: &mut Ctx) {
                     }
                 }
             }
-            (format!("{name} {can}"), res)
+            check_tx = Some(Some(*t));
+            match op {
+                Op::Force(_, b) => (format!("force {can} {}", *b as u8), res),
+                _ => (format!("{name} {can}"), res),
+            }
         }
         Op::Cleanup => {
             cx.rep.hit("op.cleanup");
             // pin the clock: every pending tx must be clearly inside or clearly outside its timeout
-            let mut t0 = now_ms();
-            for _ in 0..200 {
-                let unsure = w.pending_clocks().iter().any(|(s, to)| {
-                    let el = t0.saturating_sub(*s);
-                    el + GUARD_MS > *to && el <= *to + GUARD_MS
-                });
-                if !unsure {
-                    break;
-                }
-                std::thread::sleep(Duration::from_millis(GUARD_MS + 5));
-                t0 = now_ms();
-            }
+            let t0 = pin_clock(w);
             let clocks = w.pending_clocks();
             let ids = w.c().cleanup_timeouts();
             let t1 = now_ms();
@@ -637,22 +909,87 @@ fn exec(w: &mut World, op: &Op, cx: &mut Ctx) {
                 w.clock_unsure = true;
                 return;
             }
+            check_tx = Some(None);
             (format!("recover_live {t0}"), res)
+        }
+        Op::RecoverMem => {
+            cx.rep.hit("op.recover_mem");
+            let t0 = pin_clock(w);
+            let clocks = w.pending_clocks();
+            // what is pending before: (canonical id, phase, all yes, clearly inside its timeout)
+            let before: Vec<(u64, TxPhase, bool, bool)> = w.book.txs.iter().enumerate().filter_map(|(i, ti)| {
+                w.c().get(ti.real).map(|tx| (i as u64 + 1, tx.phase, tx.all_yes(), t0.saturating_sub(tx.started_at) + GUARD_MS <= tx.timeout_ms))
+            }).collect();
+            let st = w.c().recover();
+            let t1 = now_ms();
+            if clocks.iter().any(|(s, to)| (t0.saturating_sub(*s) > *to) != (t1.saturating_sub(*s) > *to)) {
+                w.clock_unsure = true;
+                cx.rep.hit("clock.unsure_dropped");
+                return;
+            }
+            if st.timed_out > 0 {
+                cx.rep.hit("res.recover_mem.timed_out_some");
+            }
+            if st.pending_commit > 0 {
+                cx.rep.hit("res.recover_mem.commit_some");
+            }
+            // oracle: recover() decides a prepared transaction by its votes
+            for (cid, ph, all_yes, inside) in &before {
+                if *ph == TxPhase::Prepared && *all_yes && *inside {
+                    let real = w.book.txs[*cid as usize - 1].real;
+                    let now_ph = w.c().get(real).map(|t| t.phase);
+                    if now_ph != Some(TxPhase::Committing) {
+                        violation(cx, w, "tensor_chain.distributed_tx.recover/prepared_all_yes_not_committing",
+                            "recover() did not move a prepared all-YES transaction inside its timeout to Committing",
+                            json!({"tx": cid, "phase_after": now_ph.map(phase_num)}));
+                    }
+                }
+                if w.book.durable.contains_key(cid) {
+                    violation(cx, w, "tensor_chain.distributed_tx.recover/completed_tx_pending",
+                        "a transaction with a logged outcome was pending when recover() ran", json!({"tx": cid}));
+                }
+            }
+            check_tx = Some(None);
+            (format!("recover_mem {t0}"),
+             format!("recstats:{}:{}:{}:{}:{}", st.timed_out, st.pending_prepare, st.pending_commit, st.pending_abort, st.completed))
+        }
+        Op::Decisions => {
+            cx.rep.hit("op.decisions");
+            let mut ds: Vec<(u64, u8)> = w.c().get_pending_decisions().iter().map(|(id, ph)| (w.book.tx_c(*id), phase_num(*ph))).collect();
+            ds.sort_unstable();
+            for (cid, _) in &ds {
+                if w.book.durable.contains_key(cid) {
+                    violation(cx, w, "tensor_chain.distributed_tx.get_pending_decisions/completed_tx_listed",
+                        "a transaction with a logged outcome is listed as a pending decision", json!({"tx": cid}));
+                }
+            }
+            let s = if ds.is_empty() { "-".to_string() } else { ds.iter().map(|(t, p)| format!("{t}.{p}")).collect::<Vec<_>>().join(",") };
+            ("decisions".to_string(), format!("decisions:{s}"))
         }
         Op::Sleep(ms) => {
             std::thread::sleep(Duration::from_millis(*ms));
             return;
         }
-        Op::Crash { cut, timeout, maxc } => {
-            crash(w, cut, *timeout, *maxc, cx);
+        Op::Crash { cut, timeout, maxc, cap } => {
+            crash(w, cut, *timeout, *maxc, *cap, cx);
             return;
         }
     };
     w.trace.push(line.clone());
     // records appended by this call
     let bytes = w.file();
-    let recs = w.learn(&bytes, before_len, cx.m);
+    let rotated = match &pre_bytes {
+        Some(pb) => bytes.len() < pb.len() || bytes[..pb.len()] != pb[..],
+        None => false,
+    };
+    if rotated {
+        cx.rep.hit("wal.rotated");
+        w.book.recs.clear();
+        w.book.durable.clear();
+    }
+    let recs = w.learn(&bytes, if rotated { 0 } else { before_len }, cx.m);
     let toks: Vec<String> = recs.iter().map(|r| r.token.clone()).collect();
+    let mut new_outcome: Option<char> = None;
     for r in &recs {
         cx.rep.hit(&format!("wal.{}", &r.token[..1]));
         if let Some(rest) = r.token.strip_prefix("C:") {
@@ -666,6 +1003,23 @@ fn exec(w: &mut World, op: &Op, cx: &mut Ctx) {
                 }
             }
             w.book.durable.insert(cid, o);
+            if let Some((_, can, _)) = completion {
+                if can == cid {
+                    new_outcome = Some(o);
+                }
+            }
+        }
+    }
+    // oracle: an answer and the log agree (outcome logged before it is acknowledged)
+    if let (Some((name, can, ok)), false) = (completion, rotated) {
+        let want = if name == "commit" { 'c' } else { 'a' };
+        if ok && new_outcome != Some(want) {
+            violation(cx, w, &format!("tensor_chain.distributed_tx.{name}/ok_without_logged_outcome"),
+                "the call answered ok but its TxComplete record is not in the log", json!({"tx": can, "appended": toks}));
+        }
+        if !ok && toks.iter().any(|t| t.starts_with("C:")) {
+            violation(cx, w, &format!("tensor_chain.distributed_tx.{name}/outcome_logged_but_error_answered"),
+                "the call answered an error but wrote a TxComplete record", json!({"tx": can, "appended": toks}));
         }
     }
     if let Some(last) = recs.last() {
@@ -675,12 +1029,21 @@ fn exec(w: &mut World, op: &Op, cx: &mut Ctx) {
     }
     w.book.file_len = bytes.len();
     w.book.recs.extend(recs);
-    let mut impl_ans = format!("{impl_res} | {} | {}", canon_runs(&toks), w.digest());
-    let mut model_ans = canon_model_answer(&cx.m.ask(&line), strip);
+    if let Some(which) = check_tx {
+        check_memory_vs_log(w, cx, which);
+    }
+    let count_l = w.cap.is_some();
+    let shown = if rotated { format!("~ {}", canon_runs(&toks, count_l)) } else { canon_runs(&toks, count_l) };
+    let mut impl_ans = format!("{impl_res} | {shown} | {}", w.digest());
+    let model_raw = ask_model(w, cx, &line);
+    let mut model_ans = canon_model_answer_c(&model_raw, strip, count_l);
     if matches!(op, Op::Flush) {
         // the abort queue is private: compare what the flush wrote, not the count
-        impl_ans = impl_ans.replacen("flushed", &format!("flushed:{}", toks.len()), 1);
-        let _ = &mut model_ans;
+        impl_ans = impl_ans.replacen("flushed", "flushed:*", 1);
+        if let Some(rest) = model_ans.strip_prefix("flushed:") {
+            let tail = rest.splitn(2, ' ').nth(1).unwrap_or("").to_string();
+            model_ans = format!("flushed:* {tail}");
+        }
     }
     cx.rep.compare(&stream, || json!({"trace": w.trace}), &impl_ans, &model_ans);
 }
@@ -700,13 +1063,13 @@ fn resolve_cut(w: &World, cut: &Cut, len: usize) -> usize {
 }
 
 /// kill the process image, cut the file, start a new coordinator on it, recover
-fn crash(w: &mut World, cut: &Cut, timeout: u64, maxc: usize, cx: &mut Ctx) {
+fn crash(w: &mut World, cut: &Cut, timeout: u64, maxc: usize, cap: Option<(u64, bool)>, cx: &mut Ctx) {
     let pre = w.file();
     let n = resolve_cut(w, cut, pre.len());
-    restart_at(w, &pre, n, timeout, maxc, cx);
+    restart_at(w, &pre, n, timeout, maxc, cap, cx);
 }
 
-fn restart_at(w: &mut World, pre: &[u8], n: usize, timeout: u64, maxc: usize, cx: &mut Ctx) {
+fn restart_at(w: &mut World, pre: &[u8], n: usize, timeout: u64, maxc: usize, cap: Option<(u64, bool)>, cx: &mut Ctx) {
     w.coord = None; // drop: BufWriter has nothing buffered (every append flushes + fsyncs)
     w.crashes += 1;
     let cutb = &pre[..n];
@@ -718,25 +1081,26 @@ fn restart_at(w: &mut World, pre: &[u8], n: usize, timeout: u64, maxc: usize, cx
     let torn_now = whole != n;
     cx.rep.hit(if torn_now { "cut.torn" } else { "cut.boundary" });
     let _ = at_boundary;
-    w.trace.push(format!("crash cut={n}/{} (whole-frame prefix {whole}) timeout={timeout} maxc={maxc}", pre.len()));
+    w.trace.push(format!("crash cut={n}/{} (whole-frame prefix {whole}) timeout={timeout} maxc={maxc} cap={cap:?}", pre.len()));
 
     // model: classification of the raw cut bytes, valid_len, then restart
-    cx.m.ask(&format!("new {timeout} {maxc}"));
+    cx.m.ask(&new_line(timeout, maxc, cap));
     let hexb = hex(cutb);
     let m_class = cx.m.ask(&format!("recover {hexb}"));
     let m_vlen = cx.m.ask(&format!("valid_len {hexb}"));
 
     let t0 = now_ms();
-    let (c, replayed, len_after_open) = new_coord(&w.path, timeout, maxc);
+    let (c, replayed, len_after_open) = new_coord(&w.path, timeout, maxc, cap);
     w.coord = Some(c);
     w.timeout = timeout;
     w.maxc = maxc;
+    w.cap = cap;
     let sp = cx.stream_prefix;
     cx.rep.compare(&format!("{sp}wal.valid_len"), || json!({"trace": w.trace}), &len_after_open.to_string(), &m_vlen);
 
     // classification straight from the WAL (a second handle on the same file, read only)
     let class_impl = {
-        let wal2 = TxWal::open_with_config(&w.path, wal_cfg()).unwrap();
+        let wal2 = TxWal::open_with_config(&w.path, wal_cfg(None)).unwrap();
         match TxRecoveryState::from_wal(&wal2) {
             Ok(st) => show_recovery(&st, &w.book),
             Err(_) => "err checksum".to_string(),
@@ -1010,6 +1374,8 @@ fn gen_phase(r: &mut Rng, first_t: usize, n: usize, allow_timeouts: bool) -> Vec
             2 => out.push(Op::RecoverLive),
             3 => out.push(Op::Vote { t: 99, shard: 0, v: V::No }),
             4 => out.push(Op::Commit(99)),
+            5 => out.push(Op::RecoverMem),
+            6 => out.push(Op::Decisions),
             _ => {}
         }
     }
@@ -1022,7 +1388,7 @@ fn gen_after(r: &mut Rng, known: usize) -> Vec<Op> {
     let k = 2 + r.below(6);
     for _ in 0..k {
         let t = r.below(known.max(1) as u64) as usize;
-        out.push(match r.below(11) {
+        out.push(match r.below(16) {
             0 | 1 => Op::Commit(t),
             2 | 3 => Op::Abort(t),
             4 => Op::CCommit(t),
@@ -1031,6 +1397,10 @@ fn gen_after(r: &mut Rng, known: usize) -> Vec<Op> {
             7 => Op::RecoverLive,
             8 => Op::Flush,
             9 => Op::Vote { t, shard: r.below(3) as usize, v: if r.chance(1, 2) { V::No } else { V::YesFake(2) } },
+            10 | 11 => Op::RecoverMem,
+            12 => Op::Decisions,
+            13 => Op::Force(t, r.chance(1, 2)),
+            14 => Op::CCommit(t),
             _ => Op::Cleanup,
         });
     }
@@ -1052,10 +1422,29 @@ fn pick_timeout(r: &mut Rng) -> u64 {
     }
 }
 
+/// size limit (no rotation) for a process started on a file of `len` bytes: room for a few records
+fn pick_cap(r: &mut Rng, len: usize, capped: bool) -> Option<(u64, bool)> {
+    if !capped || r.chance(1, 3) {
+        return None;
+    }
+    Some((len as u64 + *r.pick(&[0u64, 9, 25, 40, 60, 90, 150, 300]), false))
+}
+
 /// finish every pending transaction, restart cleanly, and require the outcomes to have stuck
 fn drain_and_verify(w: &mut World, cx: &mut Ctx, r: &mut Rng) {
     if w.clock_unsure {
         return;
+    }
+    if w.cap.is_some() {
+        // decisions need a WAL that takes records: restart without the size limit first
+        if w.crashes >= 3 {
+            return;
+        }
+        let (to, mc) = (w.timeout, w.maxc);
+        exec(w, &Op::Crash { cut: Cut::Full, timeout: to, maxc: mc, cap: None }, cx);
+        if w.clock_unsure {
+            return;
+        }
     }
     let n = w.book.txs.len();
     let mut decided: BTreeMap<u64, char> = BTreeMap::new();
@@ -1091,7 +1480,7 @@ fn drain_and_verify(w: &mut World, cx: &mut Ctx, r: &mut Rng) {
     }
     let to = w.timeout;
     let mc = w.maxc;
-    exec(w, &Op::Crash { cut: Cut::Full, timeout: to, maxc: mc }, cx);
+    exec(w, &Op::Crash { cut: Cut::Full, timeout: to, maxc: mc, cap: None }, cx);
     if w.clock_unsure {
         return;
     }
@@ -1114,12 +1503,21 @@ fn scenario(seed_rng: &mut Rng, cx: &mut Ctx, first_cuts: Option<&mut Vec<usize>
     let ntx = 1 + r.below(4) as usize;
     let timeout_a = pick_timeout(&mut r);
     let maxc = if r.chance(1, 10) { 2 } else { 100 };
+    // one scenario in five runs on size-limited WALs (appends fail once the file is full)
+    let capped = r.chance(1, 5);
+    let cap_a = if capped { Some((30 + r.below(420), false)) } else { None };
+    // (several transactions timing out at once queue their aborts in hash-map order; which
+    // AbortIntent records then fit a full WAL would depend on it)
+    let timeout_a = if capped { NEVER_MS } else { timeout_a };
+    if capped {
+        cx.rep.hit("scenario.capped");
+    }
     let phase_a = gen_phase(&mut r, 0, ntx, timeout_a == 0);
     let mut cases = 0u64;
     let mut nontrivial = false;
 
     // run phase A once to learn the file, then explore cuts of it
-    let mut w = World::new(timeout_a, maxc, cx.m);
+    let mut w = World::new_capped(timeout_a, maxc, cap_a, cx.m);
     for op in &phase_a {
         exec(&mut w, op, cx);
     }
@@ -1163,26 +1561,12 @@ fn scenario(seed_rng: &mut Rng, cx: &mut Ctx, first_cuts: Option<&mut Vec<usize>
     for (ci, n) in cuts.iter().enumerate() {
         let mut rb = r.fork(&format!("cut{ci}"));
         // a fresh world holding phase A's file and bookkeeping
-        let dir = tmp_dir();
-        let path = dir.path().join("tx.wal");
-        std::fs::write(&path, &file_a).unwrap();
-        let mut wb = World {
-            _dir: dir,
-            path,
-            coord: None,
-            timeout: timeout_a,
-            maxc,
-            book: book_a.clone(),
-            defined: w.defined.clone(),
-            trace: trace_a.clone(),
-            rt: tokio::runtime::Builder::new_current_thread().enable_all().build().unwrap(),
-            transport: MemoryTransport::new("coord".to_string()),
-            clock_unsure: false,
-            crashes: 0,
-            cur: String::new(),
-        };
-        let t1 = pick_timeout(&mut rb);
-        restart_at(&mut wb, &file_a, *n, t1, maxc, cx);
+        let mut wb = World::dead_copy(&w);
+        wb.book = book_a.clone();
+        wb.trace = trace_a.clone();
+        let t1 = if capped { NEVER_MS } else { pick_timeout(&mut rb) };
+        let cap1 = pick_cap(&mut rb, *n, capped);
+        restart_at(&mut wb, &file_a, *n, t1, maxc, cap1, cx);
         // activity, second crash, activity, third crash
         let rounds = 1 + rb.below(3);
         for round in 0..rounds {
@@ -1197,8 +1581,9 @@ fn scenario(seed_rng: &mut Rng, cx: &mut Ctx, first_cuts: Option<&mut Vec<usize>
             }
             if round + 1 < rounds && wb.crashes < 3 {
                 let cut = gen_cut(&mut rb);
-                let to = pick_timeout(&mut rb);
-                exec(&mut wb, &Op::Crash { cut, timeout: to, maxc }, cx);
+                let to = if capped { NEVER_MS } else { pick_timeout(&mut rb) };
+                let cap = pick_cap(&mut rb, wb.book.file_len, capped);
+                exec(&mut wb, &Op::Crash { cut, timeout: to, maxc, cap }, cx);
             }
         }
         drain_and_verify(&mut wb, cx, &mut rb);
@@ -1259,24 +1644,8 @@ fn directed(cx: &mut Ctx) {
         }
         let file = w.file();
         for n in 0..=file.len() {
-            let dir = tmp_dir();
-            let path = dir.path().join("tx.wal");
-            let mut wb = World {
-                _dir: dir,
-                path,
-                coord: None,
-                timeout: NEVER_MS,
-                maxc: 100,
-                book: w.book.clone(),
-                defined: w.defined.clone(),
-                trace: w.trace.clone(),
-                rt: tokio::runtime::Builder::new_current_thread().enable_all().build().unwrap(),
-                transport: MemoryTransport::new("coord".to_string()),
-                clock_unsure: false,
-                crashes: 0,
-                cur: String::new(),
-            };
-            restart_at(&mut wb, &file, n, NEVER_MS, 100, cx);
+            let mut wb = World::dead_copy(&w);
+            restart_at(&mut wb, &file, n, NEVER_MS, 100, None, cx);
             // prod the transaction in both directions, then a new transaction, then crash again
             // in the middle of what was just written
             let flip = n % 2 == 0;
@@ -1287,7 +1656,7 @@ fn directed(cx: &mut Ctx) {
             exec(&mut wb, &Op::Begin { parts: vec![0], xflag: false }, cx);
             exec(&mut wb, &Op::Vote { t, shard: 0, v: V::YesLocked }, cx);
             exec(&mut wb, &Op::Commit(t), cx);
-            exec(&mut wb, &Op::Crash { cut: Cut::Boundary { back: (n % 4) as usize, delta: [0i64, -1, 3, -7][n % 4] }, timeout: NEVER_MS, maxc: 100 }, cx);
+            exec(&mut wb, &Op::Crash { cut: Cut::Boundary { back: (n % 4) as usize, delta: [0i64, -1, 3, -7][n % 4] }, timeout: NEVER_MS, maxc: 100, cap: None }, cx);
             let mut rr = Rng::new(n as u64);
             drain_and_verify(&mut wb, cx, &mut rr);
             w.defined.extend(wb.defined.iter().cloned());
@@ -1308,12 +1677,12 @@ fn directed_timeout_after_restart(cx: &mut Ctx) {
         Op::Begin { parts: vec![0], xflag: false },
         Op::Vote { t: 1, shard: 0, v: V::YesLocked },
         Op::Commit(1),
-        Op::Crash { cut: Cut::Full, timeout: NEVER_MS, maxc: 100 },
+        Op::Crash { cut: Cut::Full, timeout: NEVER_MS, maxc: 100, cap: None },
         Op::Sleep(5000 + 2 * GUARD_MS),
         Op::Cleanup,
         Op::Commit(0),
         Op::Abort(1),
-        Op::Crash { cut: Cut::Full, timeout: NEVER_MS, maxc: 100 },
+        Op::Crash { cut: Cut::Full, timeout: NEVER_MS, maxc: 100, cap: None },
         Op::Commit(0),
     ];
     for op in &ops {
@@ -1326,6 +1695,158 @@ fn directed_timeout_after_restart(cx: &mut Ctx) {
         if w.book.durable.get(&1) == Some(&'c') && w.trace.iter().any(|l| l.starts_with("cleanup")) {
             cx.rep.observe(json!({"what": "prepared transaction timed out after restart, then committed after the next restart: cleanup_timeouts writes nothing to the WAL, so a timeout is forgotten by a restart (outside C13: only logged outcomes are protected)", "trace": w.trace}));
         }
+    }
+}
+
+/// WAL writes that FAIL: hand-written scripts on a WAL with `auto_rotate = false` and every byte
+/// value of `max_size_bytes` from 0 to past the size the script needs — so the size limit bites
+/// before / inside / after every single record of every call.  Afterwards the process is
+/// restarted without a limit, recovery is driven (`recover`, `get_pending_decisions`,
+/// `complete_commit`) and everything is drained.
+fn directed_full(cx: &mut Ctx, thorough: bool) {
+    let yes = V::YesLocked;
+    let b2 = Op::Begin { parts: vec![0, 1], xflag: false };
+    let scripts: Vec<(&str, Vec<Op>)> = vec![
+        ("commit", vec![
+            b2.clone(), Op::Vote { t: 0, shard: 0, v: yes.clone() }, Op::Vote { t: 0, shard: 1, v: yes.clone() }, Op::Commit(0),
+        ]),
+        ("abort-prepared", vec![
+            b2.clone(), Op::Vote { t: 0, shard: 0, v: yes.clone() }, Op::Vote { t: 0, shard: 1, v: yes.clone() }, Op::Abort(0),
+        ]),
+        ("two-tx-no-vote-flush", vec![
+            Op::Begin { parts: vec![0], xflag: false }, Op::Vote { t: 0, shard: 0, v: yes.clone() },
+            b2.clone(), Op::Vote { t: 1, shard: 0, v: yes.clone() }, Op::Vote { t: 1, shard: 0, v: V::No }, Op::Vote { t: 1, shard: 1, v: V::No },
+            Op::Flush, Op::Force(1, true), Op::Abort(1), Op::Commit(0),
+        ]),
+        ("recover-then-complete", vec![
+            b2.clone(), Op::Vote { t: 0, shard: 0, v: yes.clone() }, Op::Vote { t: 0, shard: 1, v: yes.clone() },
+            Op::RecoverMem, Op::Decisions, Op::CCommit(0),
+        ]),
+    ];
+    let prefix = cx.stream_prefix;
+    for (name, ops) in scripts {
+        cx.rep.hit(&format!("directed.full.{name}"));
+        // how many bytes the script writes when nothing stops it
+        let need = {
+            let mut w = World::new(NEVER_MS, 100, cx.m);
+            for op in &ops {
+                exec(&mut w, op, cx);
+            }
+            w.file().len()
+        };
+        let step = if thorough { 1 } else { 1 };
+        let mut cap = 0usize;
+        while cap <= need + 2 {
+            let mut w = World::new_capped(NEVER_MS, 100, Some((cap as u64, false)), cx.m);
+            for op in &ops {
+                exec(&mut w, op, cx);
+            }
+            exec(&mut w, &Op::Decisions, cx);
+            // what memory holds as Prepared must survive the loss of the process
+            let prepared_before: Vec<usize> = (0..w.book.txs.len())
+                .filter(|t| w.c().get(w.book.txs[*t].real).map(|x| x.phase) == Some(TxPhase::Prepared))
+                .collect();
+            exec(&mut w, &Op::Crash { cut: Cut::Full, timeout: NEVER_MS, maxc: 100, cap: None }, cx);
+            if !w.clock_unsure {
+                for t in prepared_before {
+                    if w.c().get(w.book.txs[t].real).map(|x| x.phase) != Some(TxPhase::Prepared) {
+                        violation(cx, &w, "tensor_chain.distributed_tx.memory/prepared_in_memory_not_durable",
+                            "a transaction that was Prepared in memory did not come back Prepared after a restart on the whole file",
+                            json!({"tx": t + 1, "cap": cap}));
+                    }
+                }
+            }
+            exec(&mut w, &Op::RecoverMem, cx);
+            exec(&mut w, &Op::Decisions, cx);
+            exec(&mut w, &Op::CCommit(0), cx);
+            exec(&mut w, &Op::Force(1, false), cx);
+            let mut rr = Rng::new(cap as u64);
+            drain_and_verify(&mut w, cx, &mut rr);
+            if !w.clock_unsure {
+                cx.rep.case(&format!("{prefix}directed.full"), Some(&format!("{name}@{cap}")));
+            }
+            cap += step;
+        }
+    }
+}
+
+/// The size limit with `auto_rotate = true` (the default): the append that does not fit renames
+/// the file away; `replay` reads only the current file.  Correspondence with the model's rotation
+/// branch, and the consequence as an observation: a transaction that is Prepared in memory is
+/// not brought back by a restart.
+fn directed_rot(cx: &mut Ctx) {
+    let yes = V::YesLocked;
+    let ops = vec![
+        Op::Begin { parts: vec![0, 1], xflag: false },
+        Op::Vote { t: 0, shard: 0, v: yes.clone() },
+        Op::Vote { t: 0, shard: 1, v: yes.clone() },
+        Op::Begin { parts: vec![0], xflag: false },
+        Op::Vote { t: 1, shard: 0, v: yes.clone() },
+        Op::Commit(1),
+        Op::Flush,
+    ];
+    let prefix = cx.stream_prefix;
+    let mut observed = false;
+    for cap in (20..=200usize).step_by(6) {
+        let mut w = World::new_capped(NEVER_MS, 100, Some((cap as u64, true)), cx.m);
+        for op in &ops {
+            exec(&mut w, op, cx);
+        }
+        let prepared_before: Vec<usize> = (0..w.book.txs.len())
+            .filter(|t| w.c().get(w.book.txs[*t].real).map(|x| x.phase) == Some(TxPhase::Prepared))
+            .collect();
+        exec(&mut w, &Op::Crash { cut: Cut::Full, timeout: NEVER_MS, maxc: 100, cap: None }, cx);
+        if w.clock_unsure {
+            continue;
+        }
+        for t in prepared_before {
+            if w.c().get(w.book.txs[t].real).is_none() && !observed {
+                observed = true;
+                cx.rep.hit("rot.prepared_tx_dropped");
+                cx.rep.observe(json!({
+                    "class": "tensor_chain.tx_wal.rotate/in_flight_transactions_dropped",
+                    "what": "size-limit rotation (auto_rotate, the default) renames the current WAL file away; replay and recover_from_wal read only the current file, so a transaction that record_vote acknowledged as Prepared is forgotten by the next restart (outside C13's quantifier: 1-4 transactions never reach the default 1 GiB limit; proved for the model as rotation_forgets_prepared_witness)",
+                    "max_size_bytes": cap, "tx": t + 1, "trace": w.trace}));
+            }
+        }
+        cx.rep.case(&format!("{prefix}directed.rot"), Some(&format!("rot@{cap}")));
+    }
+}
+
+/// Lock handles come from a process-wide counter that restarts with the process, while the WAL
+/// keeps the handles of the previous process: a recovered transaction's handle can be the
+/// handle a new lock gets.  Real coordinator only (the model takes handle numbers as inputs).
+fn directed_stale_handle(cx: &mut Ctx) {
+    let dir = tmp_dir();
+    let path = dir.path().join("tx.wal");
+    let (c, _, _) = new_coord(&path, NEVER_MS, 100, None);
+    let a = c.begin(&"n1".to_string(), &[0]).unwrap();
+    // the previous process gave transaction A this handle; the new process' counter will reach it
+    let stale = tensor_chain::lock_handle_current();
+    let r = c.record_vote(a.tx_id, 0, PrepareVote::Yes { lock_handle: stale, delta: DeltaVector::zero(0) });
+    if r != Ok(Some(TxPhase::Prepared)) {
+        return;
+    }
+    drop(c);
+    let (c2, _, _) = new_coord(&path, NEVER_MS, 100, None);
+    if c2.recover_from_wal().is_err() || c2.get(a.tx_id).map(|t| t.phase) != Some(TxPhase::Prepared) {
+        return;
+    }
+    let b = c2.begin(&"n1".to_string(), &[0]).unwrap();
+    let hb = c2.lock_manager().try_lock(b.tx_id, &["kb".to_string()]).unwrap();
+    let _ = c2.record_vote(b.tx_id, 0, PrepareVote::Yes { lock_handle: hb, delta: DeltaVector::zero(0) });
+    let before = c2.lock_manager().lock_holder("kb");
+    let _ = c2.commit(a.tx_id);
+    let after = c2.lock_manager().lock_holder("kb");
+    cx.rep.hit("directed.stale-handle");
+    if hb == stale && before == Some(b.tx_id) && after.is_none() && c2.get(b.tx_id).is_some() {
+        cx.rep.hit("stale_handle.foreign_lock_released");
+        cx.rep.observe(json!({
+            "class": "tensor_chain.distributed_tx.recover_from_wal/stale_lock_handle_releases_foreign_lock",
+            "what": "lock handles are allocated from a process-wide counter that restarts at 1 with the process, but recover_from_wal restores prepared transactions with the handles the previous process logged; committing (or aborting / timing out) the recovered transaction releases by handle and so drops the lock a NEW transaction got under the same number, while that transaction is still prepared (lock safety, C12's subject; arises only through restart from the WAL). Reproduced in-process by giving A the handle number the counter hands out next.",
+            "script": ["begin A [0]", format!("record_vote(A, 0, Yes{{lock_handle: {stale}}}) -> Prepared"), "crash; restart; recover_from_wal",
+                       "begin B [0]", format!("try_lock(B, kb) -> handle {hb}"), "record_vote(B, 0, Yes) -> Prepared", "commit(A)",
+                       "lock_holder(kb) = None while B is still pending/Prepared"]}));
     }
 }
 
@@ -1384,7 +1905,7 @@ fn direct_wal(cx: &mut Ctx, r: &mut Rng, rounds: u64) {
         cx.m.ask("reset_dict");
         let mut defined: HashSet<Vec<u8>> = HashSet::new();
         for round in 0..=crashes {
-            let mut wal = TxWal::open_with_config(&path, wal_cfg()).unwrap();
+            let mut wal = TxWal::open_with_config(&path, wal_cfg(None)).unwrap();
             let len_open = std::fs::metadata(&path).unwrap().len() as usize;
             // replay right after open
             let k = if round == 0 { r.below(6) } else { 1 + r.below(4) };
@@ -1452,7 +1973,7 @@ fn direct_wal(cx: &mut Ctx, r: &mut Rng, rounds: u64) {
             }
             trace.push(format!("crash cut={n}/{}", bytes.len()));
             let m_v = cx.m.ask(&format!("valid_len {}", hex(&bytes[..n])));
-            let w2 = TxWal::open_with_config(&path, wal_cfg()).unwrap();
+            let w2 = TxWal::open_with_config(&path, wal_cfg(None)).unwrap();
             let len2 = std::fs::metadata(&path).unwrap().len();
             cx.rep.compare("wal.valid_len", || json!({"trace": trace}), &len2.to_string(), &m_v);
             if len2 as usize != whole {
@@ -1468,7 +1989,7 @@ fn direct_wal(cx: &mut Ctx, r: &mut Rng, rounds: u64) {
         let dir = tmp_dir();
         let path = dir.path().join("g.wal");
         cx.m.ask("reset_dict");
-        let mut wal = TxWal::open_with_config(&path, wal_cfg()).unwrap();
+        let mut wal = TxWal::open_with_config(&path, wal_cfg(None)).unwrap();
         let k = 1 + r.below(4);
         for _ in 0..k {
             let e = gen_entry(r);
@@ -1484,7 +2005,7 @@ fn direct_wal(cx: &mut Ctx, r: &mut Rng, rounds: u64) {
         let kind = frames(&bytes, 0).len();
         std::fs::write(&path, &bytes).unwrap();
         // open would cut by header only; replay through a handle opened on a copy
-        let wal = TxWal::open_with_config(&path, wal_cfg()).unwrap();
+        let wal = TxWal::open_with_config(&path, wal_cfg(None)).unwrap();
         let after = std::fs::read(&path).unwrap();
         let rp = guarded(std::panic::AssertUnwindSafe(|| wal.replay()));
         let impl_rp = match rp {
@@ -1511,7 +2032,9 @@ fn main() {
     let mut rep = Report::new(
         "seeded scripts: interleaved life-plans of 1-4 transactions (votes incl. duplicate/late/foreign, commit, abort, \
          timeouts), the WAL cut at record boundaries +-{0,1,3,7} and random bytes (quick) or at every byte (thorough), \
-         restart, random prodding + new transactions, up to 3 crashes, final drain + clean restart. A case is one \
+         restart, random prodding (commit/abort/complete_*/force_resolve/recover/get_pending_decisions/cleanup) + new \
+         transactions, up to 3 crashes, final drain + clean restart; one scenario in five on size-limited WALs whose appends \
+         fail; hand-written scripts under every byte value of the size limit. A case is one \
          (script, first cut) branch; non-trivial = its log holds a phase change or an outcome; distinct = distinct op/cut trace",
     );
     rep.expected_branches = [
@@ -1522,6 +2045,10 @@ fn main() {
         "wal.B", "wal.V", "wal.P", "wal.C", "wal.L", "wal.R", "wal.I",
         "restart.tx.completed", "restart.tx.forgotten", "restart.tx.prepared", "restart.tx.deciding", "restart.tx.never_logged",
         "cut.torn", "cut.boundary", "crashes.2", "crashes.3",
+        "op.recover_mem", "op.decisions", "op.force", "res.force.ok", "res.force.not_found", "res.force.cannot_commit",
+        "res.recover_mem.timed_out_some", "res.recover_mem.commit_some", "res.wal_err", "res.commit.wal_err", "res.abort.wal_err",
+        "res.vote.wal_failed", "model.need_sizes", "oracle.memory_vs_log", "scenario.capped", "wal.rotated",
+        "rot.prepared_tx_dropped", "directed.stale-handle",
     ]
     .iter()
     .map(|s| s.to_string())
@@ -1538,7 +2065,17 @@ fn main() {
         // hand-written shapes, every byte
         directed(&mut cx);
         directed_timeout_after_restart(&mut cx);
+        directed_stale_handle(&mut cx);
     }
+    {
+        let mut cx = Ctx { m: &mut m, rep: &mut rep, stream_prefix: "full." };
+        directed_full(&mut cx, args.thorough);
+    }
+    {
+        let mut cx = Ctx { m: &mut m, rep: &mut rep, stream_prefix: "rot." };
+        directed_rot(&mut cx);
+    }
+    rep.note(&format!("direct + directed streams took {:.1} s", t_start.elapsed().as_secs_f64()));
     // seeded scenarios
     let budget = if args.thorough { Duration::from_secs(600) } else { Duration::from_secs(40) };
     let n_scen = if args.thorough { 400 } else { 10_000 };
